@@ -1,5 +1,6 @@
 mod c01;
 mod c03;
+mod c08;
 mod asis;
 mod c10;
 mod c11;
@@ -44,6 +45,11 @@ fn main() {
         "c12" => {
             let rep = Report::new("C12", "exploration");
             let cov = c11::run_c12(&rep);
+            rep.finish(cov)
+        }
+        "c08" => {
+            let rep = Report::new("C08", "exploration");
+            let cov = c08::run(&rep);
             rep.finish(cov)
         }
         _ => {
